@@ -263,13 +263,25 @@ fn gc_jobs(tier: Tier, jobs: &mut Vec<Job>) {
     let max_perm_len = tier.pick(5, 8);
     for cr in subs.iter().cloned() {
         let (homo, hetero) = (homo.clone(), hetero.clone());
+        let rehner_t = rehner.clone();
         let name = cr.identifier.name.clone().unwrap_or_default();
         jobs.push((
             format!("gc|{name}"),
             Box::new(move |rec: &mut Rec| {
                 // combining rules vs reference
-                let Ok(p) = PcSaftParameters::from_segments(vec![cr.clone()], homo.to_vec(), None) else {
-                    rec.skip("homo segment table lacks a group");
+                // reference decision: the table must have every group and at most one group occurrence may be polar / associating
+                let complete = cr.segments.iter().all(|g| homo.iter().any(|s| &s.identifier == g));
+                let polar = cr.segments.iter().filter(|g| homo.iter().find(|s| &&s.identifier == g).is_some_and(|s| s.model_record.mu.is_some() || s.model_record.q.is_some() || s.model_record.association_record.as_ref().is_some_and(|a| a.na + a.nb + a.nc > 0.0))).count();
+                let built = PcSaftParameters::from_segments(vec![cr.clone()], homo.to_vec(), None);
+                rec.require("assembles_iff_allowed", "sauer2014_homo", built.is_ok() == (complete && polar <= 1), || format!("from_segments is {} although the table is {} for {:?} and {polar} polar/associating group(s) occur", if built.is_ok() { "Ok" } else { "Err" }, if complete { "complete" } else { "incomplete" }, cr.segments));
+                for (tn, table) in [("rehner2023_homo", &rehner_t)] {
+                    let complete = cr.segments.iter().all(|g| table.iter().any(|s| &s.identifier == g));
+                    let polar = cr.segments.iter().filter(|g| table.iter().find(|s| &&s.identifier == g).is_some_and(|s| s.model_record.mu.is_some() || s.model_record.q.is_some() || s.model_record.association_record.as_ref().is_some_and(|a| a.na + a.nb + a.nc > 0.0))).count();
+                    let b = PcSaftParameters::from_segments(vec![cr.clone()], table.to_vec(), None);
+                    rec.require("assembles_iff_allowed", tn, b.is_ok() == (complete && polar <= 1), || format!("from_segments is {} although the table is {} for {:?} and {polar} polar/associating group(s) occur", if b.is_ok() { "Ok" } else { "Err" }, if complete { "complete" } else { "incomplete" }, cr.segments));
+                }
+                let Ok(p) = built else {
+                    rec.skip("homo segment table lacks a group or the substance has several polar/associating groups");
                     return;
                 };
                 let Some((m, sigma, eps, mw, mu, q, na, nb)) = combine(&cr, &homo) else {
